@@ -62,6 +62,7 @@ func vLRUAdd(maxN int) {
 	vsym.Assert(c.queuedEvictionsSize.Load() == qsum, "add/C17-backlog-is-sum-of-queued-files")
 	st.drain()
 	vsym.Assert(c.queuedEvictionsSize.Load() == st.q0, "add/C17-backlog-returns-after-unlink")
+	st.checkBacklogDuringUnlink("add")
 
 	evs := st.evicted
 	if ki < n {
@@ -180,6 +181,7 @@ func vLRUReserve(maxN int) {
 	vsym.Assert(c.reservedSize == st.res0+s, "reserve/C03-reserved-grows-by-s")
 	st.drain()
 	vsym.Assert(c.queuedEvictionsSize.Load() == st.q0, "reserve/C17-backlog-returns-after-unlink")
+	st.checkBacklogDuringUnlink("reserve")
 	cnt := st.checkIndex("", 0, 0, "reserve")
 	st.checkEvictionOrder("", st.evicted, "reserve")
 	m := len(st.evicted)
@@ -279,6 +281,7 @@ func VerifLRURemove() {
 		vsym.Assert(c.queuedEvictionsSize.Load() == st.q0+st.items[ki].sizeOnDisk, "remove/C17-backlog-grows-by-file")
 		st.drain()
 		vsym.Assert(c.queuedEvictionsSize.Load() == st.q0, "remove/C17-backlog-returns-after-unlink")
+		st.checkBacklogDuringUnlink("remove")
 		okEv := len(st.evicted) == 1 && st.evicted[0].key == key
 		vsym.Assert(okEv, "remove/C04-file-queued-for-deletion")
 		if okEv {
